@@ -20,8 +20,8 @@ findings; each has a machine-checked witness below, including the revert by the 
 What is proved (`…_partial`): **every other cell** — for all states and all inputs — and therefore, for
 every history that avoids the listed cells of a component, that component stays synchronised, a
 re-synchronisation at any point changes nothing in it, and a follower shows the leader's view of it.
-Two defects were repaired (`fix:` commits); the model mirrors the repaired code and `emitsPreFix` keeps the
-old behaviour for the two witnesses at the end.
+Three defects were repaired (`fix:` commits: heartbeat recovery, connector validation order, drain); the model mirrors the repaired code and `emitsPreFix` keeps the
+old behaviour for the defect witnesses at the end.
 -/
 namespace Varpulis.Props.C38
 open Varpulis.RaftSync Varpulis.RaftSync.Witness
@@ -63,7 +63,7 @@ theorem history_then_resync_partial (ops : List Op) (c : Comp) (now : Nat) (hcle
 theorem follower_view_equals_leader_partial (l : LState) (r : RState) (now : Nat) (c : Comp) (h : CompSync c l r) :
     NoRevert c l (followerView r now) := follower_matches_leader l r now c h
 
-/-- the listed cells are exactly these fourteen; status, connectors and every cell of registration,
+/-- the listed cells are exactly these twelve; status, connectors and every cell of registration,
 deregistration, sweeps and `sync_from_raft` itself are inside the theorem -/
 theorem known_cells :
     ([Kind.register, .heartbeat, .deregister, .deploy, .teardown, .migrate, .rebalanceApi, .drain,
@@ -71,7 +71,7 @@ theorem known_cells :
       .tickRebalance, .startupPolicy].flatMap fun k =>
         Comp.all.filterMap fun c => if (knownCell k c).isSome then some (k, c) else none) =
     [(.heartbeat, .book), (.deploy, .book), (.teardown, .book), (.migrate, .book), (.rebalanceApi, .book),
-     (.drain, .wset), (.drain, .book), (.drain, .groups), (.tickFailover, .book), (.tickFailover, .groups),
+     (.drain, .book), (.tickFailover, .book), (.tickFailover, .groups),
      (.tickReconcile, .book), (.tickRebalance, .book), (.tickRebalance, .groups), (.startupPolicy, .policy)] := by
   decide
 
@@ -102,16 +102,6 @@ theorem reconcile_running_counterexample :
     compSyncB .book s0.l s0.r = true ∧ compSyncB .book s.l s.r = false ∧
     (s.l.workers.get "w1").map (fun w => (w.assigned, w.running)) = some (["p"], 1) ∧
     ((sync s.l s.r 9).workers.get "w1").map (fun w => (w.assigned, w.running)) = some (["p"], 0) := by decide
-
-/-- C38-drain-not-replicated (`handle_drain_worker` proposes nothing): after the next `sync_from_raft` the
-drained worker is back, Ready, and the group points to it again -/
-theorem drain_counterexample :
-    let s0 := run {} [w1, w2, deployP]
-    let s := step s0 (.drain "w1" [toW2])
-    compSyncB .wset s0.l s0.r = true ∧ compSyncB .groups s0.l s0.r = true ∧
-    compSyncB .wset s.l s.r = false ∧ compSyncB .groups s.l s.r = false ∧
-    noRevertB .wset s.l (sync s.l s.r 9) = false ∧ noRevertB .groups s.l (sync s.l s.r 9) = false ∧
-    s.l.workers.get "w1" = none ∧ ((sync s.l s.r 9).workers.get "w1").map (·.status) = some .ready := by decide
 
 /-- C38-failover-not-replicated (health loop): a worker times out, the sweep marks it (that is proposed),
 its pipeline is moved to another worker — and the next tick's `sync_from_raft` moves it back in the
@@ -172,6 +162,21 @@ theorem heartbeat_recovery_defect_witness :
     ((sync (stepPreFix s0 hb).l (stepPreFix s0 hb).r 20002).workers.get "w1").map (·.status) = some .unhealthy ∧
     compSyncB .status (step s0 hb).l (step s0 hb).r = true ∧
     ((sync (step s0 hb).l (step s0 hb).r 20002).workers.get "w1").map (·.status) = some .ready := by decide
+
+/-- before the repair `handle_drain_worker` proposed nothing: after the next `sync_from_raft` the drained
+worker was back, Ready, and the group pointed to it again. The repaired handler proposes `GroupUpdated` for
+the groups and `DeregisterWorker` -/
+theorem drain_defect_witness :
+    let s0 := run {} [w1, w2, deployP]
+    let d : Op := .drain "w1" [toW2]
+    let s := stepPreFix s0 d
+    compSyncB .wset s0.l s0.r = true ∧ compSyncB .groups s0.l s0.r = true ∧
+    compSyncB .wset s.l s.r = false ∧ compSyncB .groups s.l s.r = false ∧
+    s.l.workers.get "w1" = none ∧ ((sync s.l s.r 9).workers.get "w1").map (·.status) = some .ready ∧
+    (((sync s.l s.r 9).groups.get "g").bind (·.pls.get "p")).map (·.worker) = some "w1" ∧
+    compSyncB .wset (step s0 d).l (step s0 d).r = true ∧ compSyncB .groups (step s0 d).l (step s0 d).r = true ∧
+    (sync (step s0 d).l (step s0 d).r 9).workers.get "w1" = none ∧
+    (((sync (step s0 d).l (step s0 d).r 9).groups.get "g").bind (·.pls.get "p")).map (·.worker) = some "w2" := by decide
 
 /-- before the repair connector creation / update was proposed before it was validated: a *rejected*
 request reached the replicated state and the next `sync_from_raft` replaced the acknowledged connector -/
